@@ -84,6 +84,14 @@ func c06Targets() []c06Target {
 		{"Struct(&A).ExportMethod(getMore).As.Return", 4, nil, func(b *mocker.Builder, s *[]int) {
 			b.Struct(&mz.A{}).ExportMethod("getMore").As(func(a *mz.A, x int) int { return 0 }).Return(-2200000)
 		}, 0},
+		// an unexported method of an instantiated generic type, addressed by name through its GC-shape symbol (that symbol IS the
+		// body); its first call goes to the sibling scale, which must stay untouched
+		{"Pkg.ExportStruct(*G[go.shape.string]).Method(weight).As.Return", 27, nil, func(b *mocker.Builder, s *[]int) {
+			b.Pkg(c06Pkg).ExportStruct("*G[go.shape.string]").Method("weight").As(func(g *mz.G[string], x int) int { return 0 }).Return(-2500000)
+		}, 0},
+		{"Pkg.ExportStruct(*G[go.shape.string]).Method(weight).Apply(const)", 27, nil, func(b *mocker.Builder, s *[]int) {
+			b.Pkg(c06Pkg).ExportStruct("*G[go.shape.string]").Method("weight").Apply(func(g *mz.G[string], x int) int { return -2600000 })
+		}, 0},
 		// ... and a callback, which must see the receiver as its first argument
 		{"Struct(&G[string]).Method(Other).Apply", 20, nil, func(b *mocker.Builder, s *[]int) {
 			b.Struct(&mz.G[string]{}).Method("Other").Apply(func(g *mz.G[string], x int) int { *s = append(*s, g.K); return 19*100000 + g.K*100 + x })
